@@ -1,6 +1,7 @@
 """C05 — non-decimal radix string->float parsing is correctly rounded."""
 import gens
 import gens_algos
+import gens_slow
 from props.common import TRUSTED_BASE, ASSUMPTIONS
 
 ID = "C05"
@@ -67,9 +68,12 @@ def streams(tier, rng, fs, profile):
     # power-of-two moderate path: the invalid marker `power2 + INVALID_FP` at exponents beyond 32768
     comp, api = gens_algos.marker_overflow_ops(rng, fs, tier)
     out += [("g-marker", api), ("comp-bin-marker", comp)]
+    out += gens_slow.slow_streams(rng, fs, tier, rads)   # component level: slow_radix (digit_comp / byte_comp) fed by the moderate path
     return out
 
 
 def nontrivial(op, res):
     t = res.split(" ")
+    if op.split(" ")[0] == "sl":
+        return t[0] == "slow" and t[1] not in ("0",)
     return t[0] == "ok" and t[1] not in ("0", "80000000", "8000000000000000", "nan")
